@@ -29,11 +29,16 @@ MASKS = {'x': ('x',), 'y': ('y',), 'xy': ('x', 'y'), 'none': ()}
 
 
 class Driver:
-    def __init__(self, name, desc, targets, reruns):
+    def __init__(self, name, desc, targets, reruns, split=False, two_updates=False):
         from . import pipeworld, world, aert
         import dawgie.pl.worker
 
         self.name, self.desc, self.targets, self.reruns = name, desc, targets, reruns
+        # split: a unit's work (store writes) and the delivery of its reply are
+        # two events; two_updates: root algorithms call ds.update() after every
+        # value they author (Dataset.update: "intermediate data")
+        self.split, self.two_updates = split, two_updates
+        self.pending = {}
         world.install_store_seams()
         self.world = world
         self.store = world.StoreWorld()
@@ -59,6 +64,10 @@ class Driver:
             for sv in alg.state_vectors():
                 for vn in list(sv.keys()):
                     sv[vn] = type(sv[vn])(('root', tag, sv.name(), vn, tn, self.epochs[(tag, tn, vn)]))
+                    if self.two_updates:
+                        ds.update()
+            if self.two_updates:
+                return
         else:
             got = []
             for ref in alg.previous():
@@ -108,6 +117,7 @@ class Driver:
         self.epochs = {(r, t, v): 0 for r in self.roots for t in self.targets for v in ('x', 'y')}
         self.nrerun = 0
         self.failed = []
+        self.pending = {}
         # initial full run, deterministic order
         for r in self.roots:
             self.w.ev_req(r, tuple(self.targets))
@@ -127,7 +137,7 @@ class Driver:
             self.store.close()
             self.store = None
 
-    def execute(self, index):
+    def execute(self, index, deliver=True):
         '''really run the unit the worker holds, deliver its reply'''
         import dawgie
         import dawgie.context
@@ -139,16 +149,24 @@ class Driver:
         ctxt = self.Ctx(None, dawgie.context.git_rev)
         DBI()._DBI__reopened = True
         timing = dict(m.timing or {})
-        new, outcome = None, 'success'
+        nv, outcome = None, 'success'
         try:
-            nv = ctxt.run(factory, 0, m.jobid, m.runid, m.target, timing)
-            new = {'.'.join(n.split('.')[4:]) for n, isnew in nv if isnew and '__metric__' not in n}
+            nv = [(n, isnew) for n, isnew in ctxt.run(factory, 0, m.jobid, m.runid, m.target, timing)]
         except Exception as e:  # noqa
             outcome = 'failure'
             self.failed.append((jobid, tgt, repr(e)))
         finally:
             DBI()._DBI__reopened = False
-        w.ev_reply(index, outcome, new, poll=False)
+        if deliver:
+            w.ev_reply(index, outcome, None, poll=False, raw_vals=nv)
+        else:
+            self.pending[(jobid, tgt, runid)] = (outcome, nv)
+
+    def deliver(self, key):
+        w = self.w
+        outcome, nv = self.pending.pop(key)
+        idx = [i for i, u in enumerate(w.inflight) if tuple(u[:3]) == key]
+        w.ev_reply(idx[0], outcome, None, poll=False, raw_vals=nv)
 
     def enabled(self):
         evs = []
@@ -167,7 +185,12 @@ class Driver:
         for j, t, r, _u in w.inflight:
             if (j, t, r) not in seen:
                 seen.add((j, t, r))
-                evs.append(('exec', j, t, r))
+                if not self.split:
+                    evs.append(('exec', j, t, r))
+                elif (j, t, r) in self.pending:
+                    evs.append(('reply', j, t, r))
+                else:
+                    evs.append(('work', j, t, r))
         return evs
 
     def apply(self, ev):
@@ -184,6 +207,12 @@ class Driver:
             _k, j, t, r = ev
             idx = [i for i, u in enumerate(w.inflight) if tuple(u[:3]) == (j, t, r)]
             self.execute(idx[0])
+        elif ev[0] == 'work':
+            _k, j, t, r = ev
+            idx = [i for i, u in enumerate(w.inflight) if tuple(u[:3]) == (j, t, r)]
+            self.execute(idx[0], deliver=False)
+        elif ev[0] == 'reply':
+            self.deliver(tuple(ev[1:]))
 
     def stored(self):
         '''what a fresh load returns for every (target, algorithm, value)'''
@@ -217,14 +246,19 @@ class Driver:
     def canon(self):
         from .pipeworld import PipeWorld
         s = self.w.capture()
-        nodes = tuple((t, tuple(sorted(todo)), doing, st) for t, todo, doing, _do, st, _rid, _ev in s['nodes'])
+        # the run id a pending node will be released under decides which stored
+        # inputs it loads: part of the state while something is pending
+        nodes = tuple((t, tuple(sorted(todo)), doing, st, rid if todo else None)
+                      for t, todo, doing, _do, st, rid, _ev in s['nodes'])
         from dawgie.db.shelve.state import DBI
         prime = dict(DBI().tables.prime)
         metric = {i for n, i in DBI().tables.state.items() if '__metric__' in n}
         # resource metrics carry wall-clock durations: not part of the state
         vals = sorted((k, v) for k, v in prime.items() if eval(k)[4] not in metric)
-        return (nodes, s['que'], tuple(sorted((j, t) for j, t, _r, _u in s['inflight'])),
-                tuple(sorted(self.epochs.items())), self.nrerun, common.digest(vals))
+        return (nodes, s['que'], tuple(sorted((j, t, r) for j, t, r, _u in s['inflight'])),
+                tuple(sorted(self.epochs.items())), self.nrerun, common.digest(vals),
+                tuple(sorted((k, o, tuple(sorted((n, f) for n, f in (nv or ()) if '__metric__' not in n)))
+                             for k, (o, nv) in self.pending.items())))
 
 
 def check(dr, ev, report):
@@ -249,15 +283,23 @@ def jobs(ctx):
         out.append(('store', ctx.tier, ctx.seed, 'store-chain', E['store-chain'], ['A'], 2))
         out.append(('store', ctx.tier, ctx.seed, 'store-fanout', E['store-fanout'], ['A'], 1))
         out.append(('store', ctx.tier, ctx.seed, 'store-join', E['store-join'], ['A', 'B'], 1))
+        # work and reply of a unit as separate events: two root re-runs whose
+        # replies arrive in either order while the other is still busy
+        out.append(('store', ctx.tier, ctx.seed, 'store-join', E['store-join'], ['A'], 2, {'split': True}))
+        out.append(('store', ctx.tier, ctx.seed, 'store-fanout', E['store-fanout'], ['A'], 1, {'two_updates': True}))
     else:
         for name in E:
             out.append(('store', ctx.tier, ctx.seed, name, E[name], ['A', 'B'], 2))
+        out.append(('store', ctx.tier, ctx.seed, 'store-join', E['store-join'], ['A'], 3, {'split': True}))
+        out.append(('store', ctx.tier, ctx.seed, 'store-chain', E['store-chain'], ['A'], 2, {'split': True}))
+        out.append(('store', ctx.tier, ctx.seed, 'store-fanout', E['store-fanout'], ['A', 'B'], 2, {'two_updates': True}))
     return out
 
 
 def job(args):
-    _k, tier, seed, name, desc, targets, reruns = args
-    dr = Driver(name, desc, targets, reruns)
+    _k, tier, seed, name, desc, targets, reruns = args[:7]
+    opts = args[7] if len(args) > 7 else {}
+    dr = Driver(name, desc, targets, reruns, **opts)
     try:
         def build(hist, report=None):
             dr.reset()
@@ -283,9 +325,9 @@ def job(args):
         for sig, what, hist in res['violations']:
             v = viol.setdefault(sig, {'what': f'[{name} targets={targets}] {what}',
                                       'replay': {'tier': 'store', 'engine': name, 'desc': desc, 'targets': targets,
-                                                 'reruns': reruns, 'history': hist}, 'count': 0})
+                                                 'reruns': reruns, 'opts': opts, 'history': hist}, 'count': 0})
             v['count'] += 1
-        return {'name': name, 'targets': targets, 'states': res['states'], 'transitions': res['transitions'],
+        return {'name': name + ''.join('+' + k for k in sorted(opts)), 'targets': targets, 'states': res['states'], 'transitions': res['transitions'],
                 'violations': viol, 'capped': res['capped']}
     finally:
         dr.close()
@@ -293,7 +335,7 @@ def job(args):
 
 def replay(data):
     r = data['replay']
-    dr = Driver(r['engine'], r['desc'], r['targets'], r['reruns'])
+    dr = Driver(r['engine'], r['desc'], r['targets'], r['reruns'], **r.get('opts', {}))
     hits = []
     try:
         dr.reset()
